@@ -2,9 +2,11 @@ package rules
 
 import (
 	"fmt"
+	"go/types"
 
 	"golang.org/x/tools/go/ssa"
 
+	"iocvet/internal/absint"
 	"iocvet/internal/core"
 )
 
@@ -51,6 +53,15 @@ func checkReplaceStage(c *core.Ctx, r *core.Report, rule string, p *procInfo, re
 		}
 	}
 	if rep == nil {
+		// the substitution lives in a helper of the method: reading, error handling and commit are decided by the
+		// text-stage table alone (rows substitute / skip / error, reported under the same rule); only locate the callback
+		for _, f := range p.Body {
+			for _, ci := range core.Calls(f) {
+				if core.IsInvoke(ci.Common(), elReplace) {
+					return core.ClosureOf(ci.Common().Args[1])
+				}
+			}
+		}
 		r.Undecided(rule, cons+":replace", c.FnPos(p.Props), "no ReplaceAllContent call found")
 		return nil
 	}
@@ -123,43 +134,14 @@ func c18(c *core.Ctx, r *core.Report) {
 			r.Undecided("C18.R2", p.Name()+":callback", c.FnPos(p.Props), "expression callback is not a function literal")
 			continue
 		}
-		cons := p.Name() + ":callback"
-		var compile, run, format *ssa.Call
-		for _, ci := range core.Calls(cl) {
-			call, ok := ci.(*ssa.Call)
-			if !ok {
-				continue
-			}
-			switch {
-			case core.IsExtCall(call.Common(), "github.com/expr-lang/expr.Compile"):
-				compile = call
-			case core.IsExtCall(call.Common(), "github.com/expr-lang/expr.Run"):
-				run = call
-			case core.IsExtCall(call.Common(), "github.com/go-kid/strconv2.FormatAny"):
-				format = call
-			}
-		}
-		if compile == nil || run == nil || format == nil {
-			r.Fail("C18.R2", cons, c.FnPos(cl), "callback is not Compile -> Run -> FormatAny")
+		cons := p.Name() + ":callback-table"
+		rs, n, und := exprCallbackTable(c, p, cl)
+		r.Count("expression_callback_table_runs", n)
+		if und != "" {
+			r.Undecided("C18.R2", cons, c.FnPos(cl), "abstract interpretation left the model: "+und)
 			continue
 		}
-		chain := core.Norm(compile.Common().Args[0]) == ssa.Value(cl.Params[0]) &&
-			core.Norm(run.Common().Args[0]) == core.ResultValue(compile, 0) &&
-			core.Norm(format.Common().Args[0]) == core.ResultValue(run, 0) &&
-			core.OnNilErrEdge(compile, run) && core.OnNilErrEdge(run, format)
-		r.Check(chain, "C18.R2", cons+":chain", c.Pos(compile.Pos()), "the callback compiles its argument (the text with placeholders already substituted), runs the program and formats the result, each step on the success edge of the previous")
-		for _, call := range []*ssa.Call{compile, run, format} {
-			u := core.ClassifyErr(call)
-			r.Check(u.Class == core.ErrTested || u.Class == core.ErrReturned, "C18.R2", cons+":error:"+core.Callee(call.Common()).Name(), c.Pos(call.Pos()),
-				"error propagates ("+string(u.Class)+" "+u.Detail+")")
-		}
-		okRet := true
-		for _, ret := range core.Returns(cl) {
-			if core.ClassifyReturn(ret) == core.RetSuccess && core.Norm(ret.Results[0]) != core.ResultValue(format, 0) {
-				okRet = false
-			}
-		}
-		r.Check(okRet, "C18.R2", cons+":result", c.FnPos(cl), "every success return of the callback yields the formatted expression result")
+		rs.report(c, r, resolveWrapper(cl), func(string) string { return "C18.R2" }, cons, exprCallbackRows)
 	}
 
 	// ---- R4: the text the expression stage works on has every placeholder resolved, nested ones included
@@ -168,6 +150,83 @@ func c18(c *core.Ctx, r *core.Report) {
 	for _, p := range validate {
 		c18Validate(c, r, p)
 	}
+}
+
+var exprCallbackRows = map[string]string{
+	"chain":  "the callback compiles exactly its argument (the text with placeholders already substituted), runs exactly the compiled program and formats exactly the run's output - each step once and only after the previous one succeeded",
+	"error":  "a failing compile / run / format makes the callback fail and nothing runs after it",
+	"result": "on success the callback yields the formatted output and a nil error",
+}
+
+// exprCallbackTable interprets the expression stage's substitution callback (a literal or a method value, the
+// expression engine possibly behind an internal seam) with the three library steps as oracles.
+func exprCallbackTable(c *core.Ctx, p *procInfo, cb *ssa.Function) (rs rows, runs int, undecided string) {
+	rs = rows{}
+	var events []string
+	var failAt string
+	build := func() (absint.Oracle, []absint.Value, []absint.Value) {
+		events, failAt = nil, ""
+		t := newTbl(c)
+		step := func(name string, arg func(a []absint.Value) absint.Value, okVal func(in absint.Value) absint.Value, zero absint.Value) func(ip *absint.Interp, a []absint.Value) absint.Value {
+			return func(ip *absint.Interp, a []absint.Value) absint.Value {
+				in := arg(a)
+				events = append(events, name+"("+absint.Show(in)+")")
+				if failAt == "" && ip.Choose(2, name+" outcome") == 1 {
+					failAt = name
+					return absint.Tuple{zero, t.newErr(name)}
+				}
+				return absint.Tuple{okVal(in), absint.Nil{}}
+			}
+		}
+		first := func(a []absint.Value) absint.Value { return a[0] }
+		t.ext["github.com/expr-lang/expr.Compile"] = step("compile", first, func(in absint.Value) absint.Value { return absint.NewTok("program("+absint.Show(in)+")", "program") }, absint.Nil{})
+		t.ext["github.com/expr-lang/expr.Run"] = step("run", first, func(in absint.Value) absint.Value { return absint.NewTok("output("+absint.Show(in)+")", "output") }, absint.Nil{})
+		t.ext["github.com/go-kid/strconv2.FormatAny"] = step("format", first, func(in absint.Value) absint.Value { return absint.NewTok("text("+absint.Show(in)+")", "text") }, absint.Str(""))
+		proc := absint.NewTok("proc", "processor")
+		_, recv, bind := callbackFrame(cb, func(ty types.Type) absint.Value {
+			et := ty
+			if pt, ok := et.Underlying().(*types.Pointer); ok {
+				et = pt.Elem()
+			}
+			if core.NamedOf(et) == p.T {
+				return proc
+			}
+			return nil
+		})
+		return t, append(recv, absint.Str("1+1")), bind
+	}
+	check := func(ip *absint.Interp, out absint.Outcome) {
+		w := fmt.Sprintf("events=%v failing step=%q => %s", events, failAt, showOutcome(out))
+		if out.Panic != nil {
+			rs.fail("error", "PANIC "+w)
+			return
+		}
+		want := []string{`compile("1+1")`, `run(program("1+1"))`, `format(output(program("1+1")))`}
+		switch failAt {
+		case "compile":
+			want = want[:1]
+		case "run":
+			want = want[:2]
+		}
+		rs.hit("chain")
+		if fmt.Sprint(events) != fmt.Sprint(want) {
+			rs.fail("chain", w+fmt.Sprintf(" expected %v", want))
+		}
+		isErr := len(out.Ret) == 2 && isErrTok(out.Ret[1])
+		if failAt != "" {
+			rs.hit("error")
+			if !isErr {
+				rs.fail("error", w)
+			}
+			return
+		}
+		rs.hit("result")
+		if isErr || len(out.Ret) != 2 || absint.Show(out.Ret[0]) != `text(output(program("1+1")))` {
+			rs.fail("result", w)
+		}
+	}
+	runs, undecided = runTable(c, resolveWrapper(cb), build, check)
+	return
 }
 
 func c18Validate(c *core.Ctx, r *core.Report, p *procInfo) {
